@@ -272,6 +272,10 @@ type radiusScript struct {
 	recs   []acctRec
 	auths  int
 	reject map[string]bool // user names / passwords to reject
+	// fault injection: Accounting-Stop requests of these user names are received but answered with an
+	// error (server failure); the attempts are kept in failed, not in recs
+	failStop map[string]bool
+	failed   []acctRec
 }
 
 var radiusSeq atomic.Int64
@@ -279,7 +283,7 @@ var radiusSeq atomic.Int64
 const radiusSecret = "c16-secret"
 
 func newRadiusScript() *radiusScript {
-	rs := &radiusScript{host: fmt.Sprintf("c16-%d.radius.test", radiusSeq.Add(1)), reject: map[string]bool{}}
+	rs := &radiusScript{host: fmt.Sprintf("c16-%d.radius.test", radiusSeq.Add(1)), reject: map[string]bool{}, failStop: map[string]bool{}}
 	vradius.Register(rs.host+":1812", rs.handle)
 	vradius.Register(rs.host+":1813", rs.handle)
 	return rs
@@ -319,10 +323,21 @@ func (rs *radiusScript) handle(ctx context.Context, p *radius.Packet, addr strin
 		if ip := rfc2865.FramedIPAddress_Get(p); ip != nil {
 			r.IP = ip.String()
 		}
+		if r.Typ == 2 && rs.failStop[r.User] {
+			rs.failed = append(rs.failed, r)
+			return nil, fmt.Errorf("scripted RADIUS: accounting server failure (injected)")
+		}
 		rs.recs = append(rs.recs, r)
 		return p.Response(radius.CodeAccountingResponse), nil
 	}
 	return nil, fmt.Errorf("scripted RADIUS: unexpected code %v", p.Code)
+}
+
+// nAttempts: accounting requests received, delivered or failed by injection.
+func (rs *radiusScript) nAttempts() int {
+	rs.mu.Lock()
+	defer rs.mu.Unlock()
+	return len(rs.recs) + len(rs.failed)
 }
 
 func (rs *radiusScript) records() []acctRec {
@@ -345,6 +360,62 @@ func (rs *radiusScript) count(who string) (starts, stops int) {
 		}
 	}
 	return
+}
+
+// stopOracle is clause O4 evaluated PER ACCOUNTING SESSION: every Acct-Session-Id of user who that got a
+// Start must have got exactly one Stop (with an injected Stop failure: exactly one failed attempt and no
+// delivered Stop), and no session may get a Stop without a Start. It returns complaints.
+func (rs *radiusScript) stopOracle(who string) []string {
+	rs.mu.Lock()
+	defer rs.mu.Unlock()
+	type c struct {
+		starts, stops, failed int
+		inject                bool // the session's user is one whose Stops are failed by injection
+	}
+	per := map[string]*c{}
+	var order []string
+	get := func(id string) *c {
+		if per[id] == nil {
+			per[id] = &c{}
+			order = append(order, id)
+		}
+		return per[id]
+	}
+	for _, r := range rs.recs {
+		if r.User != who && r.Sess != who {
+			continue
+		}
+		if rs.failStop[r.User] {
+			get(r.Sess).inject = true
+		}
+		switch r.Typ {
+		case 1:
+			get(r.Sess).starts++
+		case 2:
+			get(r.Sess).stops++
+		}
+	}
+	for _, r := range rs.failed {
+		if r.User == who || r.Sess == who {
+			get(r.Sess).failed++
+			get(r.Sess).inject = true
+		}
+	}
+	var out []string
+	for _, id := range order {
+		x := per[id]
+		switch {
+		case x.inject:
+			if x.starts > 0 && (x.failed != 1 || x.stops != 0) || x.starts == 0 && x.failed+x.stops > 0 {
+				out = append(out, fmt.Sprintf("session %s: %d Start, %d Stop delivered, %d Stop attempt(s) failed by injection (want exactly one attempt iff a Start)", id, x.starts, x.stops, x.failed))
+			}
+		case x.starts > 0 && x.stops != 1:
+			out = append(out, fmt.Sprintf("session %s got %d Accounting-Start and %d Accounting-Stop (want exactly 1 Stop)", id, x.starts, x.stops))
+		case x.starts == 0 && x.stops > 0:
+			out = append(out, fmt.Sprintf("session %s got %d Accounting-Stop without a Start", id, x.stops))
+		}
+	}
+	return out
 }
 
 func (rs *radiusScript) render() string {
